@@ -1152,6 +1152,8 @@ namespace awkward {
           reinterpret_cast<uint8_t*>(data()),
           bytelength());
         util::handle_error(err, classname(), identities_.get());
+        // the copy starts at data(), i.e. it no longer contains the bytes before byteoffset_
+        byteoffset = 0;
       }
     }
     IdentitiesPtr identities = identities_;
